@@ -70,6 +70,7 @@ func (fv *FuncVC) loopContract(ord int, n ast.Node) *LoopContract {
 }
 
 type loopCtx struct {
+	head    *State // state at the head of the iteration: athead(e) in endassert clauses
 	pre     *State // state on loop entry: before(e) in invariants
 	ord     int
 	lc      *LoopContract
@@ -222,6 +223,7 @@ func (fv *FuncVC) runLoop(ls *loopSpec, st *State) *State {
 		known = append(known, h)
 	}
 	allocPre := pre["alloc"]
+	fv.addFact(head, "(not (select "+head.heaps["alloc"]+" nil))") // nil is never allocated
 	for _, h := range known {
 		H := head.heaps[h]
 		recs := byHeap[h]
@@ -232,7 +234,16 @@ func (fv *FuncVC) runLoop(ls *loopSpec, st *State) *State {
 			continue
 		}
 		if len(recs) == 0 {
+			// not written by the loop: the head state simply keeps the pre-loop term (fewer symbols for the solver);
+			// the equation is kept for terms that already mention the placeholder
 			fv.addFact(head, mkEq(H, pre[h]))
+			head.heaps[h] = pre[h]
+			for hh, rr := range byHeap {
+				for i := range rr {
+					rr[i] = strings.ReplaceAll(rr[i], H, pre[h])
+				}
+				byHeap[hh] = rr
+			}
 			continue
 		}
 		framable := true
@@ -274,6 +285,16 @@ func (fv *FuncVC) runLoop(ls *loopSpec, st *State) *State {
 	fv.frames = append(fv.frames, frame)
 	end, exit := ls.body(head.clone(), frame)
 	fv.curPos = ls.pos
+	lx.head = head
+	if lx.lc != nil && fv.mode == "full" && !end.dead() {
+		for i, c := range lx.lc.EndAsserts {
+			sc := fv.specScope(end, fv.entry, false)
+			sc.loopPre, sc.loopHead = lx.pre, head
+			g := fv.specBool(c.Expr, sc)
+			fv.oblig(end, "inv", fmt.Sprintf("endassert:%d:%d", lx.ord, i+1), c.Text, g)
+			fv.addFact(end, g)
+		}
+	}
 	fv.checkInvariants(lx, end, "pres")
 	if hasVar && !end.dead() {
 		v1, _ := fv.variant(lx, end)
